@@ -93,6 +93,14 @@ def oracle_busy(sc, res):
     for cid, (t0, delta) in regs.items():
         if cid == 2:
             continue
+        # the first due instant after the blocking ended is served on time: the sleep is computed from the clock, not from
+        # the instant the pass began
+        allf = [e[0] for e in res.trace if e[2] == 'timer' and e[3] == cid]
+        k = (t_free + J + 1 - t0 + delta - 1) // delta
+        due = t0 + k * delta
+        if due + J + 2 < sc['horizon'] and not any(due <= f <= due + J for f in allf):
+            nxt = [f for f in allf if f > due + J]
+            v.append(dict(kind='timer-late-after-a-slow-callback', cid=cid, due=due, period=delta, next_invocation=(nxt[0] if nxt else None), blocked=[busy[0][0], busy[0][1]]))
         fires = [e[0] for e in res.trace if e[2] == 'timer' and e[3] == cid and e[0] > t_free + 2 * delta + J]
         for t in fires:
             off = (t - t0) % delta
